@@ -198,7 +198,27 @@ fn to_data_tail(ret: &str, v: &str) -> String {
 }
 
 fn function_value_source(src: &mut Src) -> String {
-    match src.weighted(&[5, 3, 2, 2]) {
+    match src.weighted(&[5, 3, 2, 2, 2]) {
+        // shapes the checker may accept or reject, but the compiler must survive: alternative
+        // patterns with repeated / missing variables, record updates on opaque types
+        4 => {
+            match src.below(4) {
+                0 => {
+                    let second = *src.pick(&["B(x, x)", "B(x, y)", "B(y, x)", "B(x, _)", "B(_, x)"]);
+                    format!("pub type T {{\n  A(Int, Int)\n  B(Int, Int)\n}}\n\npub fn entry(a: Int) -> Data {{\n  let t = if a > 0 {{\n    A(a, 2)\n  }} else {{\n    B(a, 3)\n  }}\n  let r = when t is {{\n    A(x, y) | {second} -> x + y\n  }}\n  let d: Data = r\n  d\n}}\n")
+                }
+                1 => {
+                    let fields = *src.pick(&["inner: Int", "inner: Int, other: Int", "inner: List<Int>"]);
+                    let update = if fields.contains("List") { "inner: [a]" } else { "inner: 2" };
+                    let init = if fields.contains("other") { "Thing { inner: a, other: 1 }" } else if fields.contains("List") { "Thing { inner: [] }" } else { "Thing { inner: a }" };
+                    let opaque = if src.chance(2, 3) { "opaque " } else { "" };
+                    let tail = if fields.contains("List") { "  let d: Data = u.inner\n  d\n" } else { "  let d: Data = u.inner\n  d\n" };
+                    format!("pub {opaque}type Thing {{\n  {}\n}}\n\npub fn entry(a: Int) -> Data {{\n  let t = {init}\n  let u = Thing {{ ..t, {update} }}\n{tail}}}\n", fields.replace(", ", ",\n  "))
+                }
+                2 => "pub opaque type W {\n  W(Int)\n}\n\npub fn entry(a: Int) -> Data {\n  let w = W(a)\n  let W(n) = w\n  let d: Data = n\n  d\n}\n".to_string(),
+                _ => "pub type P {\n  P { x: Int, y: Int }\n}\n\npub fn entry(a: Int) -> Data {\n  let p = P { x: a, y: 1 }\n  let q = P { ..p, y: 2 }\n  let P { x, y } = q\n  let d: Data = x + y\n  d\n}\n".to_string(),
+            }
+        }
         // a builtin handed to a higher-order helper (or bound first, or partially wrapped)
         0 => {
             let (name, params, ret, args) = *src.pick(FIRST_CLASS);
